@@ -332,3 +332,166 @@ Proof.
     + exists s'. split; [exact C'|]. split; [rewrite Hn'; exact Hn1|]. split; [rewrite app_assoc; exact R'|].
       intros tau a b. rewrite (Hconn tau a b). apply Hc'.
 Qed.
+
+(* ------------------------------------------------------------------ read_edges: the table represents the input *)
+Lemma okey_lift e : okey (lift e) = ekey e.
+Proof. reflexivity. Qed.
+Lemma map_okey_lift l : map okey (map lift l) = map ekey l.
+Proof. rewrite map_map. apply map_ext. intros e. apply okey_lift. Qed.
+
+Lemma read_edge_repr seen s u v f :
+  Coh s -> from_seen seen s -> in_range s u -> in_range s v -> u <> v -> ~ In (key u v) (map ekey seen) ->
+  repr s (map lift seen) -> repr (read_edge s (u, v, f)) (map lift (seen ++ [(u, v, f)])).
+Proof.
+  intros C F Hu Hv Huv Hnew R.
+  assert (N1 : fm_find (nb_get s u) v = None).
+  { destruct (fm_find (nb_get s u) v) eqn:E; [|reflexivity]. exfalso. apply Hnew. rewrite key_sym. apply F; [exact Hv|exact Hu|congruence]. }
+  assert (N2 : fm_find (nb_get s v) u = None).
+  { destruct (fm_find (nb_get s v) u) eqn:E; [|reflexivity]. exfalso. apply Hnew. apply F; [exact Hu|exact Hv|congruence]. }
+  apply repr_step with (s := s) (u := u) (v := v) (X := PInf) (T := Fin f) (others := map lift seen) (Lold := map lift seen).
+  - intros x. split; [auto|]. intros [[A _]|A]; [congruence|exact A].
+  - intros x. rewrite map_app, in_app_iff. cbn [map In]. change (lift (u, v, f)) with (u, v, Fin f).
+    split; [intros [A|[A|[]]]; auto; left; split; [discriminate|auto]|intros [[_ A]|A]; auto].
+  - rewrite map_okey_lift. exact Hnew.
+  - intros x. tauto.
+  - exact Huv.
+  - change (read_edge s (u, v, f)) with (pair_op s u v (fun l => fm_add l v (Fin f)) (fun l => fm_add l u (Fin f)) (Fin f)).
+    apply pair_op_tab; try assumption; intros k; apply lookup_fm_add; assumption.
+  - exact R.
+Qed.
+
+Lemma read_fold_repr : forall es seen s,
+  Coh s -> from_seen seen s -> repr s (map lift seen) -> NoDup (map ekey (seen ++ es)) ->
+  (forall u v t, In (u, v, t) es -> in_range s u /\ in_range s v /\ u <> v) ->
+  repr (fold_left read_edge es s) (map lift (seen ++ es)).
+Proof.
+  induction es as [|[[u v] f] es IH]; intros seen s C F R Hn Hr; cbn [fold_left].
+  - rewrite app_nil_r. exact R.
+  - destruct (Hr u v f (or_introl eq_refl)) as (Hu & Hv & Huv).
+    assert (Hnew : ~ In (key u v) (map ekey seen)).
+    { rewrite map_app in Hn. cbn [map] in Hn. apply NoDup_remove_2 in Hn. intros H. apply Hn. apply in_or_app. left. exact H. }
+    destruct (read_edge_coh seen s u v f C F Hu Hv Huv Hnew) as [C' F'].
+    pose proof (read_edge_repr seen s u v f C F Hu Hv Huv Hnew R) as R'.
+    assert (EQ : forall x : edge, seen ++ x :: es = (seen ++ [x]) ++ es) by (intros x; rewrite <- app_assoc; reflexivity).
+    rewrite EQ. apply (IH (seen ++ [(u, v, f)]) (read_edge s (u, v, f))); try assumption.
+    + rewrite <- app_assoc. exact Hn.
+    + intros u0 v0 t0 H0. apply (Hr u0 v0 t0). right. exact H0.
+Qed.
+
+Lemma read_self_tab s i a b : Coh s -> in_range s i -> fm_find (nb_get s i) i = None -> 0 <= a -> a <> b ->
+  tab (read_self s i) a b = tab s a b.
+Proof.
+  intros C Hi N Ha Hab. destruct (read_self_coh s i C Hi N) as (_ & _ & Hoth). unfold tab.
+  destruct (Z.eqb_spec a i) as [->|Nai]; [|rewrite Hoth by assumption; reflexivity].
+  change (nb_get (read_self s i) i) with (nb_get (nb_upd s i (fun l => fm_add l i MInf)) i).
+  pose proof (coh_len s C) as Hl. unfold in_range in Hi.
+  rewrite nb_get_upd by lia. rewrite Z.eqb_refl. rewrite lookup_fm_add by exact N.
+  destruct (Z.eqb_spec b i); [congruence|reflexivity].
+Qed.
+
+Lemma read_selfs_repr L : forall todo s, Coh s -> NoDup todo ->
+  (forall i, In i todo -> in_range s i /\ fm_find (nb_get s i) i = None) ->
+  repr s L -> repr (fold_left read_self todo s) L.
+Proof.
+  induction todo as [|i todo IH]; intros s C Hn Ht R; cbn [fold_left]; [exact R|].
+  destruct (Ht i (or_introl eq_refl)) as [Hi Ni].
+  destruct (read_self_coh s i C Hi Ni) as (C' & Hnv & Hoth).
+  apply NoDup_cons_iff in Hn. destruct Hn as [Hni Hn].
+  apply IH; [exact C'|exact Hn| |].
+  - intros j Hj. destruct (Ht j (or_intror Hj)) as [Hjr Nj]. split; [unfold in_range; rewrite Hnv; exact Hjr|].
+    rewrite Hoth; [exact Nj|unfold in_range in Hjr; lia|intros ->; contradiction].
+  - intros a b Ha Hb Hab f. unfold in_range in Ha, Hb. rewrite Hnv in Ha, Hb.
+    rewrite read_self_tab; [apply R; assumption|exact C|exact Hi|exact Ni|lia|exact Hab].
+Qed.
+
+Lemma read_edges_repr es : simple_graph es -> repr (read_edges es) (map lift es).
+Proof.
+  intros [Hnd Hsimple]. unfold read_edges.
+  pose proof (num_vertices_pos es) as Hpos.
+  set (n := num_vertices es) in *. set (s0 := mkState (repeat [] (Z.to_nat n)) (fun _ => PInf) n).
+  assert (C0 : Coh s0) by (apply coh_init; exact Hpos).
+  assert (F0 : from_seen [] s0).
+  { intros i j _ _ H. exfalso. apply H. unfold s0. rewrite nb_get_init. reflexivity. }
+  assert (R0 : repr s0 (map lift [])).
+  { intros a b _ _ _ f. unfold tab, s0. rewrite nb_get_init. cbn. split; [intros [<- H]; congruence|intros [[]|[]]]. }
+  assert (Hrng : forall u v t, In (u, v, t) es -> in_range s0 u /\ in_range s0 v /\ u <> v).
+  { intros u v t H. destruct (Hsimple u v t H) as (A & B & D). destruct (num_vertices_bound es u v t H) as [E1 E2].
+    unfold in_range, s0. cbn [nvert]. fold n in E1, E2. lia. }
+  destruct (read_edges_fold_coh es [] s0 C0 F0 Hnd Hrng) as (C1 & F1 & N1).
+  pose proof (read_fold_repr es [] s0 C0 F0 R0 Hnd Hrng) as R1. cbn [app] in F1, R1. change (nvert s0) with n in N1.
+  apply read_selfs_repr; [exact C1| | |exact R1].
+  - apply FinFun.Injective_map_NoDup; [intros a b H; lia|apply seq_NoDup].
+  - intros i Hi. apply in_map_iff in Hi. destruct Hi as (k & <- & Hk). apply in_seq in Hk.
+    assert (Hr : in_range (fold_left read_edge es s0) (Z.of_nat k)) by (unfold in_range; rewrite N1; lia).
+    split; [exact Hr|].
+    destruct (fm_find (nb_get (fold_left read_edge es s0) (Z.of_nat k)) (Z.of_nat k)) eqn:E; [|reflexivity]. exfalso.
+    assert (Hin : In (key (Z.of_nat k) (Z.of_nat k)) (map ekey es)) by (apply F1; [exact Hr|exact Hr|congruence]).
+    apply in_map_iff in Hin. destruct Hin as ([[u v] t] & Ek & He). unfold ekey in Ek. cbn [fst snd] in Ek.
+    apply key_diag in Ek. destruct (Hsimple u v t He) as (_ & _ & D). contradiction.
+Qed.
+
+(* ------------------------------------------------------------------ the theorem, on edge lists *)
+(* a and b are joined by an edge of L present at time tau / are in the same component of that graph *)
+Definition adjL (L : list oedge) (tau : fv) (a b : Z) : Prop := exists f, has_edge L a b f /\ fv_le f tau = true.
+Definition connL (L : list oedge) (tau : fv) : Z -> Z -> Prop := clos_refl_sym_trans Z (adjL L tau).
+
+Lemma repr_conn s L tau :
+  repr s L -> (forall a b f, has_edge L a b f -> in_range s a /\ in_range s b /\ a <> b) -> tau <> PInf ->
+  forall a b, conn s tau a b <-> connL L tau a b.
+Proof.
+  intros R Hr Ht a b. split; apply clos_rst_mono; clear a b; intros a b.
+  - intros (Ha & Hb & Hab & Hle). apply rst_step. exists (tab s a b). split; [|exact Hle].
+    apply (R a b Ha Hb Hab). split; [reflexivity|]. intros E. rewrite E in Hle. destruct tau; cbn in Hle; congruence.
+  - intros (f & He & Hle). destruct (Hr a b f He) as (Ha & Hb & Hab). apply rst_step.
+    split; [exact Ha|]. split; [exact Hb|]. split; [exact Hab|].
+    apply (R a b Ha Hb Hab f) in He. destruct He as [-> _]. exact Hle.
+Qed.
+
+Lemma connL_ext L1 L2 tau : (forall x, In x L1 <-> In x L2) -> forall a b, connL L1 tau a b <-> connL L2 tau a b.
+Proof.
+  intros H a b. split; apply clos_rst_mono; clear a b; intros a b (f & [He|He] & Hle); apply rst_step; exists f;
+    (split; [|exact Hle]); unfold has_edge; [left|right|left|right]; apply H; exact He.
+Qed.
+
+Theorem components_preserved es out : simple_graph es -> process_edges false es = Some out ->
+  forall (tau : Z) a b, connL (map lift es) (Fin tau) a b <-> connL out (Fin tau) a b.
+Proof.
+  intros Hs H tau a b. destruct (read_edges_coh es Hs) as [C Hn]. pose proof (read_edges_repr es Hs) as R.
+  destruct Hs as [Hnd Hsimple].
+  assert (Hrng : forall u v t, In (u, v, t) es -> in_range (read_edges es) u /\ in_range (read_edges es) v /\ u <> v).
+  { intros u v t Hin. destruct (Hsimple u v t Hin) as (A & B & D). destruct (num_vertices_bound es u v t Hin) as [E1 E2].
+    unfold in_range. rewrite Hn. lia. }
+  pose proof H as H0. unfold process_edges in H0.
+  destruct (process_loop_conn (map snd es) es (read_edges es) [] out C (read_edges_ok _ es (incl_refl _)) (incl_refl _) Hrng)
+    as (s' & C' & Hn' & R' & Hc); [exact R|cbn [app]; rewrite map_okey_lift; exact Hnd|exact H0|]. cbn [app] in R'.
+  rewrite <- (repr_conn (read_edges es) (map lift es) (Fin tau) R); [|
+    | discriminate].
+  - rewrite <- (repr_conn s' out (Fin tau) R'); [apply Hc| |discriminate].
+    intros x y f [He|He]; destruct (collapse_edges_subset false es out _ _ _ H He) as (t & Hin & _);
+      destruct (Hrng _ _ _ Hin) as (A & B & D); unfold in_range in *; rewrite Hn'; auto.
+  - intros x y f [He|He]; apply in_map_iff in He; destruct He as ([[u v] t] & E & Hin); inversion E; subst;
+      destruct (Hrng _ _ _ Hin) as (A & B & D); auto.
+Qed.
+
+Theorem components_preserved_any dense es out :
+  NoDup (map ekey es) -> (forall u v t, In (u, v, t) es -> 0 <= u /\ 0 <= v /\ u <> v) ->
+  process_edges dense es = Some out ->
+  forall (tau : Z) a b, connL (map lift es) (Fin tau) a b <-> connL out (Fin tau) a b.
+Proof.
+  intros H1 H2 H. assert (Hs : simple_graph es) by (split; assumption).
+  apply components_preserved; [exact Hs|]. destruct dense; [rewrite <- tables_agree by exact Hs|]; exact H.
+Qed.
+
+Theorem components_preserved_entry_point dense es out :
+  NoDup (map ekey es) -> (forall u v t, In (u, v, t) es -> 0 <= u /\ 0 <= v /\ u <> v) ->
+  flag_complex_collapse_edges dense es = Some out ->
+  forall (tau : Z) a b, connL (map lift es) (Fin tau) a b <-> connL out (Fin tau) a b.
+Proof.
+  intros H1 H2 H tau a b. unfold flag_complex_collapse_edges in H. destruct es as [|e es]; [inversion H; tauto|].
+  set (l := e :: es) in *. assert (Hs : simple_graph l) by (split; assumption).
+  pose proof (sort_desc_perm l) as P. pose proof (simple_graph_perm _ _ P Hs) as [Hs1 Hs2].
+  rewrite <- (components_preserved_any dense (sort_desc l) out Hs1 Hs2 H tau a b).
+  apply connL_ext. intros x. split; intros Hx.
+  - apply Permutation_in with (map lift l); [apply Permutation_map; exact P|exact Hx].
+  - apply Permutation_in with (map lift (sort_desc l)); [apply Permutation_map; apply Permutation_sym; exact P|exact Hx].
+Qed.
